@@ -270,16 +270,37 @@ func (a *Operator) useHexEscapes(input string) string {
 func (o *Operator) dontUseFlagsForMetaCharacters(input string) string {
 	result := input
 	flagsStartRegexp := regexp.MustCompile(`\(\?[-misU]+\)`)
-	result = flagsStartRegexp.ReplaceAllLiteralString(result, "")
-
-	flagGroupStartRegexp := regexp.MustCompile(`\(\?[-misU]+:`)
+	offset := 0
 	for {
-		location := flagGroupStartRegexp.FindStringIndex(result)
-		if len(location) > 0 {
-			result = o.removeGroup(result, location[0], location[1], false)
-		} else {
+		location := flagsStartRegexp.FindStringIndex(result[offset:])
+		if len(location) == 0 {
 			break
 		}
+		start, end := offset+location[0], offset+location[1]
+		if utils.IsEscaped(result, start) {
+			// literal parenthesis, not a flag group
+			offset = start + 1
+			continue
+		}
+		result = result[:start] + result[end:]
+		offset = start
+	}
+
+	flagGroupStartRegexp := regexp.MustCompile(`\(\?[-misU]+:`)
+	offset = 0
+	for {
+		location := flagGroupStartRegexp.FindStringIndex(result[offset:])
+		if len(location) == 0 {
+			break
+		}
+		start, end := offset+location[0], offset+location[1]
+		if utils.IsEscaped(result, start) {
+			// literal parenthesis, not a flag group
+			offset = start + 1
+			continue
+		}
+		result = o.removeGroup(result, start, end, false)
+		offset = start
 	}
 	return result
 }
@@ -330,7 +351,7 @@ func (o *Operator) findGroupBodyEnd(input string, groupBodyStart int) (int, bool
 	hasAlternation := false
 	parensCounter := 1
 	index := groupBodyStart
-	for ; parensCounter > 0; index++ {
+	for ; parensCounter > 0 && index < len(input); index++ {
 		char := input[index]
 		switch char {
 		case '(':
